@@ -480,3 +480,46 @@ def replay_cpukinds(here, job, r, f, trace, log):
 
 
 REPLAYERS["cpukinds"] = replay_cpukinds
+
+
+def replay_synthetic(here, job, r, f, trace, log):
+    """C07 topology-synthetic.c: parser obligations are replayed by loading descriptions of every depth 1..127 natively under
+    valgrind (the scaled-down level table of the harness corresponds to 128 entries in the library); exporter obligations by
+    exporting a few synthetic topologies into guarded buffers of every size (replay/synthetic_replay.c)"""
+    mode = "interleave" if "process_indexes" in job.entry else "levels" if ("init" in job.entry or "parse" in job.entry) else "export"
+    exe, err = _build_native(here, "synthetic_replay.c", "synthetic_replay")
+    if not exe:
+        return False, "native replay build failed: " + err, {"function": job.entry}
+    cmd = (["valgrind", "-q", "--error-exitcode=1"] if mode == "levels" else []) + [exe, mode]
+    try:
+        p = subprocess.run(cmd, capture_output=True, text=True, timeout=300)
+    except subprocess.TimeoutExpired:
+        return True, "REPRODUCED: native scenario did not terminate within 300 s", {"function": job.entry, "argv": cmd}
+    out = (p.stdout + p.stderr)
+    if mode == "levels":
+        m = re.search(r"Invalid (write|read) of size \d+[^\n]*\n(?:[^\n]*\n){0,8}", out)
+        if m:
+            return True, "REPRODUCED under valgrind: hwloc_topology_set_synthetic() on a description of one of the depths 1..127 (typed 'group:1 ... pu:1' / untyped '1 1 ... 1' / with '[numa]'): " + " | ".join(x.strip() for x in m.group(0).split("\n")[:6]), {"function": job.entry, "argv": cmd}
+        return False, out.strip()[-600:], {"function": job.entry, "argv": cmd}
+    return p.returncode == 1, out.strip()[-800:], {"function": job.entry, "argv": cmd}
+
+
+REPLAYERS["synthetic"] = replay_synthetic
+
+
+def replay_nolibxml(here, job, r, f, trace, log):
+    """C06 nolibxml scanners: hostile document heads / tails are loaded natively with the built-in parser, each in a child
+    process (replay/xmlbuf_replay.c); only used for the document-level job (look_init), the in-place scanners keep the trace"""
+    if "look_init" not in job.entry:
+        return False, "no native replay for %s: the verifier's trace is in this file" % job.entry, {"function": job.entry}
+    exe, err = _build_native(here, "xmlbuf_replay.c", "xmlbuf_replay")
+    if not exe:
+        return False, "native replay build failed: " + err, {"function": job.entry}
+    try:
+        p = subprocess.run([exe], capture_output=True, text=True, timeout=300)
+    except subprocess.TimeoutExpired:
+        return True, "REPRODUCED: native scenario did not terminate within 300 s", {"function": job.entry}
+    return p.returncode == 1, (p.stdout + p.stderr).strip()[-800:], {"function": job.entry, "argv": []}
+
+
+REPLAYERS["nolibxml"] = replay_nolibxml
